@@ -667,17 +667,10 @@ fn concat(plain: &[(char, String)]) -> String {
 }
 
 fn rt_float(binary: bool, plain: &[(char, String)]) -> String {
-    // an exponent whose normalisation leaves `isize` makes `Repr::new` overflow (a panic in this build, a wrap-around
-    // without overflow checks; the float parser's own property, C08, records it): for this property the run-time parser
-    // gives no number there — `err`, as the model says; the macro itself must then be a compile error
-    let plain2: Vec<(char, String)> = plain.to_vec();
-    match std::panic::catch_unwind(move || rt_float_inner(binary, &plain2)) {
-        Ok(s) => s,
-        Err(_) => {
-            let _ = LAST_PANIC.with(|p| p.borrow_mut().take());
-            "err".into()
-        }
-    }
+    // since 5997fe0 (float/src/parse.rs) the run-time parser rejects an exponent whose normalisation leaves `isize`
+    // with an error instead of overflowing in `Repr::new`: no panic is caught here any more — a panic of the run-time
+    // parser surfaces as the case's result and disagrees with the model
+    rt_float_inner(binary, plain)
 }
 
 fn rt_float_inner(binary: bool, plain: &[(char, String)]) -> String {
